@@ -18,6 +18,7 @@ import (
 //	VERIF_CRASH_AT=<k>        SIGKILL this process immediately before point k is performed
 //	VERIF_SIGNAL_AT=<k>:<SIG> deliver SIG (INT|TERM|QUIT|HUP) to this process before point k and wait until
 //	                          the Go runtime has delivered it to signal.Notify channels
+//	VERIF_POLL_POINTS=1       every look at the context's cancellation (ctx.Err() in lib/query) is a point too
 //	VERIF_FAIL_AT=<k>:<ERRNO> make point k fail with the errno (EACCES ENOENT EISDIR EROFS ENOSPC EIO EBADF EMFILE)
 //
 // Points are numbered from 1 in program order.
@@ -49,6 +50,7 @@ func init() {
 	if tr == "" && cr == "" && sg == "" && fl == "" {
 		return
 	}
+	PollPoints = os.Getenv("VERIF_POLL_POINTS") == "1"
 	pc := &procController{last: map[*Op]int{}}
 	if tr != "" {
 		pc.trace, _ = os.OpenFile(tr, os.O_CREATE|os.O_WRONLY|os.O_APPEND, 0644)
